@@ -36,27 +36,18 @@ CLAIMED = {
             "field < suffix) must give the same tree for every accepted query, and two re-layouts of every query must give "
             "equal trees.",
             NOTE_COMMON + "The abstract-interpretation certificate (Canon) theorem is not merged at this commit.", "5 C03"),
-    "C04": ("correspondence over call histories with forked history-free references; Lean: total model with explicit error type",
-            "Histories of 2-8 calls mixing valid, syntactically wrong, illegal-character and malformed-numeral inputs through "
-            "both entry points; every outcome must equal the outcome in a forked child that never parsed anything and the "
-            "model's; only ParseSyntaxError / IllegalCharacterError may escape. The model's parse is a total Lean function "
-            "into Except ParseErr Tree.",
-            NOTE_COMMON + "History independence theorem (stateful lexer model) in progress.", "5 C04"),
-    "C05": ("correspondence (JSON and exception messages equal) + reference semantics on random documents; Lean proof in progress",
-            "The model of the builder (visitor, E-tree, JSON) agrees with the implementation on every generated (config, tree); "
-            "for every translated query the JSON is evaluated by a reference bool/nested evaluator on random nested documents "
-            "and compared with the reference denotation of the tree; KF3-KF5 are recognised by re-evaluating with the "
-            "finding's predicted semantics.",
-            NOTE_COMMON + "The equivalence theorem is not merged at this commit.", "5 C05"),
-    "C06": ("correspondence + expected-leaf-clause oracle + builder call histories",
-            "Leaf clauses of the JSON are compared as a multiset with the clauses expected from the tree (field, text, kind, "
-            "zero_terms_query, _name, boost/fuzziness/slop incl. field_options); same builder twice / fresh builder / class "
-            "attribute snapshots for purity; JSON round trip.",
-            NOTE_COMMON + "Lean theorem about leaves in progress.", "5 C06"),
-    "C07": ("correspondence + independent refusal predicate; Lean proof in progress",
-            "Exception class and message must equal the model's; an independent python predicate (container misuse in "
-            "pre-order, else AND/OR mix after same-class flattening) must predict refusal exactly.",
-            NOTE_COMMON + "KF5 recognised by recomputing the predicate with parents-of-leaves as containers.", "5 C07"),
+    "C04": ('Lean 4 proof (totality: parse never yields a model-internal error; fuel sufficiency; history independence on a stateful lexer model) + correspondence over call histories with forked history-free references',
+            'Theorems: parse_total / parse_outcomes (for every string a tree or one of the two ParseError classes, nothing else: parse_never_internal rests on an LR stack-consistency invariant whose table facts are decide +kernel certificates, and runLoop_fuel_ok); lex_history_independent (for EVERY previous lexer state, stale tracker and mid-input position included, tokenising s gives lex s, because the first lexeme starts at offset 0), parseCall_eq_parse, nth_call_eq_parse, entry_points_agree. Correspondence: histories of 2-8 calls through both entry points against forked children that never parsed anything.',
+            NOTE_COMMON + "PLY's own lexer/parser loop is modelled (Model/Stateful.lean, Parser.lean); RecursionError/MemoryError outside the claim.", "5 C04"),
+    "C05": ('Lean 4 proof (reject-or-equivalent: build_meaning on nested documents, boolean part without document hypothesis) + correspondence (JSON and messages equal) + reference semantics on random documents',
+            'Theorems: evalJ_json (the JSON means what the E-tree means), build_meaning (SupportedSem, cfgPlain, DocWF: for every truth assignment and document the returned query matches exactly what the tree denotes: AND all, OR any, implicit default, NOT/- complement, nested = some nested object), build_meaning_flat (pure boolean part, no document hypothesis: negation never dropped, grouping respected), reject_or_equivalent (with C07). KF3/KF4/KF5 excluded by hypothesis and refuted on witnesses by decide. Correspondence + python reference evaluators as before.',
+            NOTE_COMMON + 'Leaf atoms are opaque (truth insensitive to _name / zero_terms_query); documents well-formed (DocWF).', "5 C05"),
+    "C06": ('Lean 4 proof (leaf clauses in document order = expectedLeaves; count, field, name) + correspondence + expected-clause oracle + builder call histories',
+            'Theorems: leaves_eq_expected (no boolean operation: the leaf clauses of the result, in document order, are the clauses expected from the tree), leaves_perm_expected (with boolean operations: as a permutation), leaves_length (= number of terms and ranges), expected_fields, expected_names, every_term_one_clause. Purity of the builder is definitional in the model; on the implementation: same builder twice / fresh builder / class attribute snapshots.',
+            NOTE_COMMON + "expectedLeaves is defined through the same EItem construction as the model's builder; the python oracle recomputes field/text/kind/zero_terms/_name/modifiers independently.", "5 C06"),
+    "C07": ('Lean 4 proof (refuses_exactly: misuse / mix characterisation in all four directions) + correspondence + independent refusal predicate',
+            'Theorems: nestingCheck_ok_iff / nestingCheck_error_iff (the checker raises exactly on the first misused container term), orAnd_only_on_mix, mix_refused, misuse_refused, translated (Supported: every query that is not refused is translated, no other exception), refuses_exactly; spec-normalisation lemmas for equivalent spellings. Negative witnesses (IndexError on one-operand mixes, regex after field, non-term range bound, KF5) by decide.',
+            NOTE_COMMON + 'KF5 recognised by recomputing the python predicate with parents-of-leaves as containers.', "5 C07"),
     "C08": ("Lean 4 proof (visitEvents = preorder map dispatch, cache consistency, preorder context, copy lemmas)" + T_CORR,
             "Theorems: for every handler table, consistent cache, tree: the events of a visit are exactly the pre-order "
             "enumeration with dispatch along the generated MRO, true ancestors and index path; the cache stays consistent "
@@ -93,13 +84,9 @@ CLAIMED = {
             "exactly on operations without operands. The print/parse round trip (iv) is checked on the implementation for "
             "all expressible generated trees (expressibility decided by the all-blanks spelling); KF8, KF9 recognised.",
             NOTE_COMMON + "(iv) depends on lexer adjacency lemmas that are not proved: partial.", "5 C13"),
-    "C14": ("Lean 4 proof on an abstract machine (frame property of interleaved atomic steps) + forced-schedule "
-            "differential runs + access audit of the shared parser object",
-            "Workers run under a deterministic scheduler that blocks each at every lexer step until a seeded schedule grants "
-            "the turn; outcomes must equal sequential ones; the attributes of the shared LRParser object written/read during "
-            "a parse are audited. Lean: machine and frame theorem (in progress at this commit).",
-            NOTE_COMMON + "GIL / byte-code atomicity and PLY internals outside the audited accesses are not modelled: partial.",
-            "5 C14"),
+    "C14": ('Lean 4 proof on an abstract machine (frame property under every schedule, unconditional thread_safe) + forced-schedule differential runs + free-running stress + access audit of the shared parser object',
+            'Theorems: run_thread (after ANY schedule the state of a thread depends only on its own number of turns), thread_safe / thread_safe_parse (every schedule that lets a thread finish gives it exactly parse(input); fuel proved sufficient), outcome_is_sequential (under any schedule an outcome, once present, is the sequential one), shared_irrelevant. Harness: deterministic scheduler at every lexer step (plain and context-copied workers, caller parsed before), stress with 1 microsecond switch interval, audit of attribute reads/writes on the shared LRParser.',
+            NOTE_COMMON + 'GIL / byte-code atomicity and PLY internals outside the audited accesses are not modelled: partial by nature.', "5 C14"),
     "C15": ("Lean 4 proof (named = operands, mapping exact, names pairwise distinct via rank, alphabet facts by decide)" + T_CORR,
             "Theorems for every tree without names: auto_name never fails; the named nodes are exactly the direct operands of "
             "operations (or the root alone); the mapping is exactly {name: path}; names and paths are pairwise distinct for "
@@ -116,19 +103,15 @@ CLAIMED = {
             "text; tags are balanced; the rendered string is the implementation's output; each character carries the class "
             "of the innermost marked ancestor; the parsimonious mode gives the same class per character.",
             NOTE_COMMON + "'original query' inherits C01's hypothesis (KF1).", "5 C17"),
-    "C18": ("correspondence of the Prettifier model + re-parse oracle; Lean proof in progress",
-            "The model's output equals the implementation's for all generated trees and settings; for parsed queries the "
-            "pretty text must parse to an equal tree, be deterministic, leave the input untouched; KF10 recognised.",
-            NOTE_COMMON + "The structure theorem (only blanks inserted between chunks) is not merged yet: partial.", "5 C18"),
-    "C19": ("correspondence of SchemaAnalyzer + builder models + per-leaf oracle on random mappings; Lean proof in progress",
-            "For every leaf of random mappings (legacy and current layout, nested/object/implicit object/multi-fields) and both "
-            "query spellings the clause must be on the full path, term-level iff not analysed text, nested on the innermost "
-            "nested ancestor; equivalent spellings of field specs must configure equal outcomes.",
-            NOTE_COMMON, "5 C19"),
-    "C20": ("correspondence (message lists equal) + translator (method table) + WF / defect-injection oracle; Lean proof in progress",
-            "Totality, errors()/__call__ consistency and non-mutation on arbitrary trees; well-formed trees by construction are "
-            "accepted; each of 7 defect kinds injected at every reachable position is rejected; messages equal the model's.",
-            NOTE_COMMON, "5 C20"),
+    "C18": ('Lean 4 proof (structure theorem: only blanks/newlines are inserted between chunks; exact success condition) + correspondence + re-parse oracle',
+            "Theorems: prettify_squash / prettify_squash_str (for every indent, max_len, inline_ops: removing blanks and newlines from the output gives the concatenation of the chunks, = the tree's text when layout is blank), prettify_isSome_iff (fails exactly on operations without operands in certain positions), determinism (function). The parse-back clause is checked on the implementation (re-parse equality, determinism, non-mutation); KF10 recognised.",
+            NOTE_COMMON + 'Parse-back needs lexer adjacency lemmas that are not proved: partial.', "5 C18"),
+    "C19": ('Lean 4 proof (walk enumerates every field once; not-analysed iff; registered nested prefixes; end-to-end clause for the dotted spelling) + correspondence + per-leaf oracle on random mappings with analyzer call histories',
+            'Theorems: walk_enumerates, notAnalyzed_iff, nestedPrefixes_iff (a nested node is registered iff it has a child that is not itself a registered container: KF5/KF11 made precise), build_schema_field / build_nested_path / build_no_nested_path (the dotted query of a mapped field gives a clause on the full path, term-level iff not analysed, nested on the innermost REGISTERED nested prefix). Correspondence and oracle over random mappings, both spellings, equivalent spec spellings.',
+            NOTE_COMMON + 'Group spelling, phrases/ranges and document-type level are covered by the correspondence only.', "5 C19"),
+    "C20": ('Lean 4 proof (call_iff_wf: accepted iff well-formed; defect found in every context) + translator (method table, 20 decide lemmas) + correspondence + defect-injection oracle',
+            'Theorems: call_iff_no_error, checkErrors_nil_iff / call_iff_wf (the checker accepts exactly the trees of the class WF), defect_found / defect_rejected (each defect kind at the hole of any context built from operations, groups, field groups, fields, boosts, prefixes is reported), total. 20 method_* lemmas tie the generated check_* table to the model.',
+            NOTE_COMMON + 'Regex, From/To, NoneItem have no check method (reported as unknown item): outside WF, as the model shows.', "5 C20"),
 }
 
 PLANNED = {}
